@@ -92,3 +92,84 @@ Check (C01.C01_split_chromosome_refused :
 Check (eq_refl : E_CHROM_SPLIT = 12).
 Check (C01.C01_accepted_one_run_per_chromosome : forall fp o sizes inp bs,
   bw_write fp o sizes inp = Ok bs \/ bw_write_multipass fp o sizes inp = Ok bs -> NoDup (map fst (runs inp))).
+
+(* ---- compressed files (Model/BigWigWriteZ.v: the compressor is a parameter) ---- *)
+From BT Require Import Generated.Consts Model.BigWigWriteZ.
+Check (eq_refl : bw_write_z = fun cmp fp o => bw_write_zc cmp (o_compress o) fp o).
+Check (eq_refl : bw_write_multipass_z = fun cmp fp o => bw_write_multipass_zc cmp (o_compress o) fp o).
+Check (eq_refl : zsec = fun cmp (c : bool) s =>
+  if c then {| sd_chrom := sd_chrom s; sd_start := sd_start s; sd_end := sd_end s; sd_bytes := cmp (sd_bytes s) |} else s).
+Check (C01.C01_read_info_compressed : forall cmp fp o sizes inp bs,
+  opts_ok o -> input_ok sizes inp -> Nlen bs < U64 ->
+  bw_write_z cmp fp o sizes inp = Ok bs \/ bw_write_multipass_z cmp fp o sizes inp = Ok bs ->
+  exists i, read_info bs = Ok i
+    /\ h_big (i_hdr i) = false /\ h_bigwig (i_hdr i) = true /\ h_version (i_hdr i) = 4
+    /\ (h_ubuf (i_hdr i) = 0 <-> o_compress o = false) /\ h_ubuf (i_hdr i) < 4294967296
+    /\ h_full_data_off (i_hdr i) = PRE_DATA - 8 /\ h_summary_off (i_hdr i) = PRE_DATA - 48
+    /\ h_zoom_levels (i_hdr i) = Nlen (i_zooms i) /\ Nlen (i_zooms i) <= 10
+    /\ i_chroms i = map (fun ci => {| ci_name := fst ci; ci_id := snd ci;
+                                      ci_len := match lookup (fst ci) sizes with Some l => l | None => 0 end |})
+                        (number 0 (map fst (runs inp)))).
+Check (C01.C01_buf_size_compressed : forall cmp fp o sizes inp bs,
+  bw_write_z cmp fp o sizes inp = Ok bs -> opts_ok o -> input_ok sizes inp -> Nlen bs < U64 ->
+  exists ids outs sum data zooms,
+    bw_collect fp o sizes inp = Ok (ids, outs, sum, data)
+    /\ bw_zoom_levels fp o outs (zoom_sizes_single o) = Ok zooms
+    /\ forall i, read_info bs = Ok i -> o_compress o = true ->
+         Forall (fun s => Nlen (sd_bytes s) <= h_ubuf (i_hdr i)) (data ++ flat_map zl_secs zooms)).
+Check (C01.C01_buf_size_compressed_multipass : forall cmp fp o sizes inp bs,
+  bw_write_multipass_z cmp fp o sizes inp = Ok bs -> opts_ok o -> input_ok sizes inp -> Nlen bs < U64 ->
+  exists ids outs sum data zooms,
+    bw_collect fp o sizes inp = Ok (ids, outs, sum, data)
+    /\ bw_zoom_levels fp o outs (zoom_sizes_two_pass o sum (total_zoom_counts outs)
+                                   (Nlen (data_bytes (map (zsec cmp (o_compress o)) data)))) = Ok zooms
+    /\ forall i, read_info bs = Ok i -> o_compress o = true ->
+         Forall (fun s => Nlen (sd_bytes s) <= h_ubuf (i_hdr i)) (data ++ flat_map zl_secs zooms)).
+Check (C01.C01_chrom_table_compressed : forall cmp fp o sizes inp bs i,
+  opts_ok o -> input_ok sizes inp -> Nlen bs < U64 ->
+  bw_write_z cmp fp o sizes inp = Ok bs \/ bw_write_multipass_z cmp fp o sizes inp = Ok bs ->
+  read_info bs = Ok i ->
+  i_chroms i = map (fun ci => {| ci_name := fst ci; ci_id := snd ci;
+                                 ci_len := match lookup (fst ci) sizes with Some l => l | None => 0 end |})
+                   (number 0 (map fst (runs inp)))).
+Check (C01.C01_accepted_runs_compressed : forall cmp fp o sizes inp bs,
+  opts_ok o -> input_ok sizes inp -> Nlen bs < U64 ->
+  bw_write_z cmp fp o sizes inp = Ok bs \/ bw_write_multipass_z cmp fp o sizes inp = Ok bs ->
+  forall c vs, In (c, vs) (runs inp) -> exists len, lookup c sizes = Some len /\ wf_vals len vs /\ vs <> []).
+Check (C01.C01_query_compressed : forall cmp infl fp o sizes inp bs i c vs s e,
+  (o_compress o = true -> forall b, infl (cmp b) = b) ->
+  opts_ok o -> input_ok sizes inp -> Nlen bs < U64 ->
+  bw_write_z cmp fp o sizes inp = Ok bs \/ bw_write_multipass_z cmp fp o sizes inp = Ok bs ->
+  read_info bs = Ok i -> In (c, vs) (runs inp) ->
+  bw_interval infl bs i c s e = Ok (clip_filter s e vs)).
+Check (C01.C01_roundtrip_compressed : forall cmp infl fp o sizes inp bs i c vs len,
+  (o_compress o = true -> forall b, infl (cmp b) = b) ->
+  opts_ok o -> input_ok sizes inp -> Nlen bs < U64 ->
+  bw_write_z cmp fp o sizes inp = Ok bs \/ bw_write_multipass_z cmp fp o sizes inp = Ok bs ->
+  read_info bs = Ok i -> In (c, vs) (runs inp) -> lookup c sizes = Some len ->
+  bw_interval infl bs i c 0 len = Ok (filter (fun v => negb (boundary_zero len v)) vs)).
+Check (C01.C01_roundtrip_file_exact_compressed : forall cmp infl fp o sizes inp bs i c vs len,
+  (o_compress o = true -> forall b, infl (cmp b) = b) ->
+  opts_ok o -> input_ok sizes inp -> Nlen bs < U64 ->
+  bw_write_z cmp fp o sizes inp = Ok bs \/ bw_write_multipass_z cmp fp o sizes inp = Ok bs ->
+  read_info bs = Ok i -> In (c, vs) (runs inp) -> lookup c sizes = Some len ->
+  Forall (fun v => boundary_zero len v = false) vs -> bw_interval infl bs i c 0 len = Ok vs).
+Check (C01.C01_chrom_table_compressed_on_input : forall cmp fp o sizes inp bs,
+  opts_ok o -> input_ok sizes inp -> Nlen bs < U64 ->
+  bw_write_z cmp fp o sizes inp = Ok bs \/ bw_write_multipass_z cmp fp o sizes inp = Ok bs ->
+  forall i, read_info bs = Ok i ->
+  i_chroms i = map (fun ci => {| ci_name := fst ci; ci_id := snd ci;
+                                 ci_len := match lookup (fst ci) sizes with Some l => l | None => 0 end |})
+                   (number 0 (first_app (map fst inp)))).
+Check (C01.C01_query_compressed_on_input : forall cmp infl fp o sizes inp bs,
+  (o_compress o = true -> forall b, infl (cmp b) = b) ->
+  opts_ok o -> input_ok sizes inp -> Nlen bs < U64 ->
+  bw_write_z cmp fp o sizes inp = Ok bs \/ bw_write_multipass_z cmp fp o sizes inp = Ok bs ->
+  forall i c s e, read_info bs = Ok i -> In c (map fst inp) ->
+  bw_interval infl bs i c s e = Ok (clip_filter s e (vals_of inp c))).
+Check (C01.C01_roundtrip_compressed_on_input : forall cmp infl fp o sizes inp bs,
+  (o_compress o = true -> forall b, infl (cmp b) = b) ->
+  opts_ok o -> input_ok sizes inp -> Nlen bs < U64 ->
+  bw_write_z cmp fp o sizes inp = Ok bs \/ bw_write_multipass_z cmp fp o sizes inp = Ok bs ->
+  forall i c len, read_info bs = Ok i -> In c (map fst inp) -> lookup c sizes = Some len ->
+  bw_interval infl bs i c 0 len = Ok (filter (fun v => negb (boundary_zero len v)) (vals_of inp c))).
